@@ -35,6 +35,8 @@ impl BlkFile {
     fn open(&mut self) -> Result<&mut XorReader<BufReader<File>>> {
         if self.reader.is_none() {
             debug!(target: "blkfile", "Opening {} ...", &self.path.display());
+            #[cfg(feature = "verif")]
+            crate::verif::blk_open(&self.path);
             let buf_reader = BufReader::with_capacity(READER_BUFSIZE, File::open(&self.path)?);
             self.reader = Some(XorReader::new(buf_reader, self.xor_key.clone()));
         }
@@ -44,6 +46,8 @@ impl BlkFile {
     /// Closes the file handle
     pub fn close(&mut self) {
         debug!(target: "blkfile", "Closing {} ...", &self.path.display());
+        #[cfg(feature = "verif")]
+        crate::verif::blk_close(&self.path, self.reader.is_some());
         if self.reader.is_some() {
             self.reader = None;
         }
